@@ -1,0 +1,165 @@
+//go:build verif
+// +build verif
+
+package trie
+
+import (
+	"reflect"
+	"unsafe"
+
+	"github.com/openacid/low/bitmap"
+)
+
+// This file is only compiled with the build tag "verif". It adds read-only
+// accessors used by the verification harness in /verif; it changes no
+// existing code.
+
+// VerifNode is the decoded view of one node as the query code sees it.
+type VerifNode struct {
+	ID      int32
+	IsInner bool
+
+	// inner node
+	WordSize       int32 // 4 or 8
+	InnerPrefixLen int32 // in bit: step, or bitstr.Len of the stored prefix
+	HasInnerPrefix bool
+	InnerPrefix    []byte // bitstr, a copy
+	From, To       int32  // bit range in Inners
+	IsShort        bool
+	FirstChild     int32
+	Labels         []int32 // set bit positions in the (decoded) label bitmap
+
+	// leaf node
+	IthLeaf       int32
+	HasLeafPrefix bool
+	LeafPrefix    []byte // a copy
+	HasValue      bool   // Leaves != nil
+	Value         []byte // a copy of the stored bytes of the value
+}
+
+// VerifNodeCnt returns the number of nodes according to the node type bitmap
+// and the label bitmaps.
+func (st *SlimTrie) VerifNodeCnt() int32 {
+	ns := st.inner
+	if ns.NodeTypeBM == nil {
+		return 0
+	}
+	if ns.Inners == nil || len(ns.Inners.Words) == 0 {
+		return 1
+	}
+	n := int32(0)
+	for _, w := range ns.Inners.Words {
+		for ; w != 0; w &= w - 1 {
+			n++
+		}
+	}
+	// every node but the root is pointed to by a label bit.
+	return n + 1
+}
+
+// VerifDump decodes every node through getNode, the way queries do.
+func (st *SlimTrie) VerifDump() []VerifNode {
+	ns := st.inner
+	n := st.VerifNodeCnt()
+	rst := make([]VerifNode, 0, n)
+	for id := int32(0); id < n; id++ {
+		qr := &querySession{}
+		st.getNode(id, qr)
+		v := VerifNode{ID: id, IsInner: qr.isInner != 0}
+		if v.IsInner {
+			v.WordSize = qr.wordSize
+			v.InnerPrefixLen = qr.innerPrefixLen
+			v.HasInnerPrefix = qr.hasInnerPrefix
+			if qr.hasInnerPrefix {
+				v.InnerPrefix = append([]byte{}, qr.innerPrefix...)
+			}
+			v.From, v.To = qr.from, qr.to
+			v.IsShort = qr.to-qr.from == ns.ShortSize
+			r, _ := bitmap.Rank128(ns.Inners.Words, ns.Inners.RankIndex, qr.from)
+			v.FirstChild = r + 1
+			if v.IsShort {
+				for i := int32(0); i < innerSize; i++ {
+					if qr.bm&bitmap.Bit[i] != 0 {
+						v.Labels = append(v.Labels, i)
+					}
+				}
+			} else {
+				for i := qr.from; i < qr.to; i++ {
+					if ns.Inners.Words[i>>6]&bitmap.Bit[i&63] != 0 {
+						v.Labels = append(v.Labels, i-qr.from)
+					}
+				}
+			}
+		} else {
+			v.IthLeaf = qr.ithLeaf
+			v.HasLeafPrefix = qr.hasLeafPrefix
+			if qr.hasLeafPrefix {
+				v.LeafPrefix = append([]byte{}, qr.leafPrefix...)
+			}
+			if ns.Leaves != nil {
+				v.HasValue = true
+				v.Value = append([]byte{}, ns.Leaves.get(qr.ithLeaf)...)
+			}
+		}
+		rst = append(rst, v)
+	}
+	return rst
+}
+
+// VerifInner exposes the message for read-only field dumps.
+func (st *SlimTrie) VerifInner() *Slim {
+	return st.inner
+}
+
+// VerifLevels returns the level table as (total, inner, leaf) triples.
+func (st *SlimTrie) VerifLevels() [][3]int32 {
+	rst := make([][3]int32, 0, len(st.levels))
+	for _, l := range st.levels {
+		rst = append(rst, [3]int32{l.total, l.inner, l.leaf})
+	}
+	return rst
+}
+
+// VerifBuffers lists the address range [start, end) of the backing array of
+// every slice reachable from the instance.
+func (st *SlimTrie) VerifBuffers() [][2]uintptr {
+	rst := make([][2]uintptr, 0)
+	seen := map[uintptr]bool{}
+	var walk func(v reflect.Value)
+	walk = func(v reflect.Value) {
+		switch v.Kind() {
+		case reflect.Ptr:
+			if v.IsNil() || seen[v.Pointer()] {
+				return
+			}
+			seen[v.Pointer()] = true
+			walk(v.Elem())
+		case reflect.Interface:
+			if !v.IsNil() {
+				walk(v.Elem())
+			}
+		case reflect.Struct:
+			for i := 0; i < v.NumField(); i++ {
+				walk(v.Field(i))
+			}
+		case reflect.Slice:
+			if v.IsNil() || v.Cap() == 0 {
+				return
+			}
+			start := v.Pointer()
+			size := uintptr(v.Cap()) * v.Type().Elem().Size()
+			rst = append(rst, [2]uintptr{start, start + size})
+			k := v.Type().Elem().Kind()
+			if k == reflect.Ptr || k == reflect.Struct || k == reflect.Slice || k == reflect.Interface {
+				for i := 0; i < v.Len(); i++ {
+					walk(v.Index(i))
+				}
+			}
+		}
+	}
+	walk(reflect.ValueOf(st.inner))
+	if st.vars != nil {
+		rst = append(rst, [2]uintptr{uintptr(unsafe.Pointer(st.vars)), uintptr(unsafe.Pointer(st.vars)) + unsafe.Sizeof(*st.vars)})
+	}
+	return rst
+}
